@@ -1,7 +1,7 @@
 (* C10 -- the overlay shows the overlayfs union of its layers and never modifies lowers.
    Only statements, closed by [exact]; proofs live in Proofs/Overlay*.v. *)
 From Coq Require Import List String NArith Bool.
-From FB Require Import Model.Overlay Proofs.OverlayInv Proofs.OverlayScan Proofs.OverlayRestart Proofs.OverlayReadOnly Proofs.OverlayCoh Proofs.OverlayCohView Proofs.OverlayCohOps Proofs.OverlayCohSteps Proofs.OverlayRefineTeq Proofs.OverlayRefineMerge Proofs.OverlayRefineRun Proofs.OverlayRefine Proofs.OverlayRefineWh Proofs.OverlayRefineCu Proofs.OverlayRefineCuFile Proofs.OverlayRefineLink Proofs.OverlayRefineAll.
+From FB Require Import Model.Overlay Proofs.OverlayInv Proofs.OverlayScan Proofs.OverlayRestart Proofs.OverlayReadOnly Proofs.OverlayCoh Proofs.OverlayCohView Proofs.OverlayCohOps Proofs.OverlayCohSteps Proofs.OverlayRefineTeq Proofs.OverlayRefineMerge Proofs.OverlayRefineRun Proofs.OverlayRefine Proofs.OverlayRefineWh Proofs.OverlayRefineCu Proofs.OverlayRefineCuFile Proofs.OverlayRefineLink Proofs.OverlayRefineRmdir Proofs.OverlayRefineDirAttr Proofs.OverlayRefineAll Proofs.OverlayRefineFail.
 Import ListNotations.
 Local Open Scope string_scope.
 Local Open Scope N_scope.
@@ -246,7 +246,59 @@ Theorem C10_op_refines_link : forall s o v, Coherent s -> direct_link s o = true
   oteq (view (load_all (run_op o s))) (Some (f_tree (snd spec))) /\
   lowers (run_op o s) = lowers s.
 Proof. exact op_refines_link. Qed.
-(* All fragments proved on [teq] as one statement: [refinable s o = direct || direct_wh || direct_cu || direct_link], and in the
+(* (c) for RMDIR of a merged directory that is empty in the view only (Proofs/OverlayRefineRmdir.v): the target is a directory
+   of the upper layer (below a directory of the upper layer) and every name that a directory merged into it holds has a whiteout as
+   first candidate ([view_emptyb]) - the situation after the entries of a merged directory were unlinked one by one.
+   empty_node_directory deletes the upper whiteouts, the directory is removed and, when lower candidates exist, replaced by a
+   whiteout; the intermediate states of this operation are NOT coherent, the final one is.  Same statement as C10_op_refines_direct. *)
+Theorem C10_op_refines_rmdir_merged : forall s o v, Coherent s -> direct_rmdir_merged s o = true -> view (load_all s) = Some v ->
+  let spec := fs_apply o (mkFs v (next_ino s)) in
+  res_same (fst (step o s)) (fst spec) /\
+  oteq (view (load_all (run_op o s))) (Some (f_tree (snd spec))) /\
+  lowers (run_op o s) = lowers s.
+Proof. exact op_refines_rmdir_merged. Qed.
+Example C10_op_refines_rmdir_merged_nonvacuous :
+  let u := Dir 493 [] [("d", Dir 493 [] [("a", Wh); ("b", Wh)]); ("e", Dir 493 [] []); ("g", Dir 493 [] [("a", Wh); ("n", File 1 420 [] [])])] in
+  let l := Dir 493 [] [("d", Dir 448 [] [("a", File 2 420 [111] []); ("b", Dir 493 [] [("k", File 3 420 [] [])])]); ("e", Dir 493 [] []);
+                       ("g", Dir 493 [] [("a", File 4 420 [] [])])] in
+  let s := load_all (fresh (Some u) [l] 1000) in
+  Coherent s /\
+  forallb (direct_rmdir_merged s) [ORmdir ["d"]; ORmdir ["e"]] = true /\
+  forallb (fun o => negb (direct_rmdir_merged s o)) [ORmdir ["g"]; ORmdir ["d"; "b"]; ORmdir ["q"]] = true /\
+  ser_opt (view s) = "d1ed(d=d1ed(),e=d1ed(),g=d1ed(n=f1a4:,),)" /\
+  upper (run_op (ORmdir ["d"]) s) = Some (Dir 493 [] [("e", Dir 493 [] []); ("g", Dir 493 [] [("a", Wh); ("n", File 1 420 [] [])]); ("d", Wh)]).
+Proof.
+  cbv zeta. split; [|vm_compute; repeat split; reflexivity].
+  apply load_all_coherent. apply fresh_coherent.
+  repeat (first [apply Forall_cons | apply Forall_nil | split | apply wf_dir | apply wf_file | apply wf_lnk | apply wf_wh
+                | apply NoDup_cons | apply NoDup_nil | (cbn; intuition discriminate) | reflexivity ]).
+Qed.
+(* (c) for DIRECTORIES of the upper layer other than the root (Proofs/OverlayRefineDirAttr.v): CHMOD, SETXATTR / REMOVEXATTR of a
+   name that is not an opaque marker change the directory (its merged entries stay as they are, in the overlay and in the ordinary
+   file system), REMOVEXATTR of an absent name answers ENODATA, OPEN for writing / WRITE / TRUNCATE answer EISDIR; [direct_dattr]. *)
+Theorem C10_op_refines_dattr : forall s o v, Coherent s -> direct_dattr s o = true -> view (load_all s) = Some v ->
+  let spec := fs_apply o (mkFs v (next_ino s)) in
+  res_same (fst (step o s)) (fst spec) /\
+  oteq (view (load_all (run_op o s))) (Some (f_tree (snd spec))) /\
+  lowers (run_op o s) = lowers s.
+Proof. exact op_refines_dattr. Qed.
+Example C10_op_refines_dattr_nonvacuous :
+  let u := Dir 493 [] [("d", Dir 493 [("user.a", [1]); ("user.overlay.opaque", [110])] [("f", File 5 420 [104] []); ("e", Dir 448 [] [])])] in
+  let l := Dir 493 [] [("d", Dir 448 [("user.z", [2])] [("o", File 2 420 [111] []); ("e", Dir 448 [] [("y", File 3 420 [] [])])]); ("z", Dir 493 [] [])] in
+  let s := load_all (fresh (Some u) [l] 1000) in
+  Coherent s /\
+  forallb (direct_dattr s) [OChmod ["d"] 448; OSetxattr ["d"; "e"] "user.k" [1]; ORemovexattr ["d"] "user.a"; ORemovexattr ["d"] "user.q";
+                            OWrite ["d"] 0 [1]; OTruncate ["d"; "e"] 0; OOpen ["d"] OF_W; OChmod ["d"; "e"] 511] = true /\
+  forallb (fun o => negb (direct_dattr s o)) [OChmod ["z"] 448; OChmod [] 448; OChmod ["d"; "f"] 448; OSetxattr ["d"] "user.overlay.opaque" [121];
+                                             OOpen ["d"] OF_R] = true /\
+  ser_opt (view (load_all (run_op (OChmod ["d"] 448) s))) = "d1ed(d=d1c0[user.a=01,](e=d1c0(y=f1a4:,),f=f1a4:68,o=f1a4:6f,),z=d1ed(),)".
+Proof.
+  cbv zeta. split; [|vm_compute; repeat split; reflexivity].
+  apply load_all_coherent. apply fresh_coherent.
+  repeat (first [apply Forall_cons | apply Forall_nil | split | apply wf_dir | apply wf_file | apply wf_lnk | apply wf_wh
+                | apply NoDup_cons | apply NoDup_nil | (cbn; intuition discriminate) | reflexivity ]).
+Qed.
+(* All fragments proved on [teq] as one statement: [refinable s o = direct || direct_wh || direct_cu || direct_link || direct_rmdir_merged || direct_dattr], and in the
    form of C10_op_refines_full after any history over [coh_op]: the full refinement statement holds for every operation that
    satisfies [refinable] in the state reached (C10_op_refines_copyup_file adds the lower-file operations, on [ser]). *)
 Theorem C10_op_refines_fragments : forall s o v, Coherent s -> refinable s o = true -> view (load_all s) = Some v ->
@@ -267,6 +319,55 @@ Example C10_op_refines_link_nonvacuous :
   forallb (fun o => negb (direct_link s o)) [OLink ["d"; "o"] ["n"]; OLink ["d"; "f"] ["z"; "n"]; OLink ["d"; "f"] ["d"; "o"]; OLink ["d"] ["n"]] = true /\
   forallb (refinable s) [OLink ["d"; "f"] ["n"]; OMkdir ["z"; "n"] 493; OUnlink ["d"; "o"]; OChmod ["d"; "f"] 384] = true /\
   ser_opt (view (load_all (run_op (OLink ["d"; "f"] ["n"]) s))) = "d1ed(d=d1ed(e=d1c0(),f=f1a4[user.a=01,]:68,o=f1a4:6f,),g=l:61,n=f1a4[user.a=01,]:68,z=d1ed(),)".
+Proof.
+  cbv zeta. split; [|vm_compute; repeat split; reflexivity].
+  apply load_all_coherent. apply fresh_coherent.
+  repeat (first [apply Forall_cons | apply Forall_nil | split | apply wf_dir | apply wf_file | apply wf_lnk | apply wf_wh
+                | apply NoDup_cons | apply NoDup_nil | (cbn; intuition discriminate) | reflexivity ]).
+Qed.
+(* (c), FAILING operations (Proofs/OverlayRefineFail.v).
+   [invisible s o]: the path the operation walks first - the path itself for getattr / readdir / read / readlink / open / write /
+   chmod / truncate / the xattr operations, the PARENT's path for lookup / create / mkdir / mknod / symlink / unlink / rmdir /
+   rename, the SOURCE's path for link - is not visible in the union (some component is missing, hidden by a whiteout, or below a
+   non-directory).  Then the operation answers ENOENT, as the ordinary file system does on the view, and nothing changes.
+   [exists_target s o]: mkdir / create / mknod / symlink of a name whose first candidate is not a whiteout, below a visible
+   directory of any layer: EEXIST on both sides, nothing changes (no copy-up happens before the test). *)
+Theorem C10_op_refines_enoent : forall s o v, Coherent s -> invisible s o = true -> view (load_all s) = Some v ->
+  (let spec := fs_apply o (mkFs v (next_ino s)) in
+   res_same (fst (step o s)) (fst spec) /\
+   oteq (view (load_all (run_op o s))) (Some (f_tree (snd spec))) /\
+   lowers (run_op o s) = lowers s) /\
+  fst (step o s) = Err ENOENT /\ upper (run_op o s) = upper s.
+Proof. exact op_refines_enoent. Qed.
+Theorem C10_op_refines_eexist : forall s o v, Coherent s -> exists_target s o = true -> view (load_all s) = Some v ->
+  (let spec := fs_apply o (mkFs v (next_ino s)) in
+   res_same (fst (step o s)) (fst spec) /\
+   oteq (view (load_all (run_op o s))) (Some (f_tree (snd spec))) /\
+   lowers (run_op o s) = lowers s) /\
+  fst (step o s) = Err EEXIST /\ upper (run_op o s) = upper s.
+Proof. exact op_refines_eexist. Qed.
+(* RMDIR, below a visible directory, of a visible non-directory answers ENOTDIR (load_directory refuses it) and of a directory that shows
+   at least one entry ENOTEMPTY, as the ordinary file system does; nothing changes ([rmdir_fails]; the path must end two levels above
+   DEPTH so that the view still shows the entries). *)
+Theorem C10_op_refines_rmdir_fails : forall s o v, Coherent s -> rmdir_fails s o = true -> view (load_all s) = Some v ->
+  (let spec := fs_apply o (mkFs v (next_ino s)) in
+   res_same (fst (step o s)) (fst spec) /\
+   oteq (view (load_all (run_op o s))) (Some (f_tree (snd spec))) /\
+   lowers (run_op o s) = lowers s) /\
+  (exists e, fst (step o s) = Err e) /\ upper (run_op o s) = upper s.
+Proof. exact op_refines_rmdir_fails. Qed.
+Example C10_op_refines_failing_nonvacuous :
+  let u := Dir 493 [] [("d", Dir 493 [] [("f", File 5 420 [104] []); ("w", Wh)]); ("x", Wh)] in
+  let l := Dir 493 [] [("d", Dir 448 [] [("w", Dir 493 [] [("k", File 3 420 [] [])]); ("o", File 4 420 [] [])]);
+                       ("x", Dir 493 [] [("y", File 6 420 [] [])]); ("z", Dir 493 [] [])] in
+  let s := load_all (fresh (Some u) [l] 1000) in
+  Coherent s /\
+  forallb (invisible s) [OMkdir ["x"; "y"; "n"] 493; OCreate ["d"; "w"; "c"] 420; OUnlink ["x"; "y"]; OChmod ["d"; "w"; "k"] 384; OWrite ["q"] 0 [1];
+                         OLink ["x"; "y"] ["n"]; ORename ["q"; "a"] ["b"]; OGetattr ["d"; "f"; "g"]; OMkdir ["d"; "f"; "g"; "h"] 493; OLookup ["x"; "y"]] = true /\
+  forallb (exists_target s) [OMkdir ["d"] 493; OCreate ["d"; "f"] 420; OSymlink ["d"; "o"] [1]; OMknod ["z"] 420] = true /\
+  forallb (fun o => negb (invisible s o) && negb (exists_target s o)) [OMkdir ["d"; "n"] 493; OUnlink ["d"; "f"]; OMkdir ["d"; "w"] 493; OMkdir ["x"] 493] = true /\
+  forallb (rmdir_fails s) [ORmdir ["d"]; ORmdir ["d"; "f"]; ORmdir ["d"; "o"]] = true /\ rmdir_fails s (ORmdir ["z"]) = false /\
+  fst (step (ORmdir ["d"]) s) = Err ENOTEMPTY /\ fst (step (ORmdir ["d"; "o"]) s) = Err ENOTDIR.
 Proof.
   cbv zeta. split; [|vm_compute; repeat split; reflexivity].
   apply load_all_coherent. apply fresh_coherent.
@@ -402,8 +503,13 @@ Print Assumptions C10_op_refines_copyup.
 Print Assumptions C10_op_refines_copyup_history.
 Print Assumptions C10_op_refines_copyup_file.
 Print Assumptions C10_op_refines_link.
+Print Assumptions C10_op_refines_rmdir_merged.
+Print Assumptions C10_op_refines_dattr.
 Print Assumptions C10_op_refines_fragments.
 Print Assumptions C10_op_refines_fragments_history.
+Print Assumptions C10_op_refines_enoent.
+Print Assumptions C10_op_refines_eexist.
+Print Assumptions C10_op_refines_rmdir_fails.
 Print Assumptions C10_ordinary_fs_respects_teq.
 Print Assumptions C10_merge_update.
 Print Assumptions C10_merge_file_change.
